@@ -256,6 +256,11 @@ def _cases(shard, tier):
                 yield c
                 if L <= 2:
                     yield dict(c, build='empty')
+                if L >= 3 and c['shape'] in ('full', 'split') and not c['unsafe'] and c['sub'] is None:
+                    # the two dove distances (no calls within N bases of the fragment end on the R1 / R2 side): different
+                    # values, so that a mix-up of the two sides shows
+                    for dv in ((1, 0), (0, 1), (2, 1)):
+                        yield dict(c, dove=list(dv))
 
 
 # ------------------------------------------------------------------------------------------------ one case
@@ -301,10 +306,11 @@ def run_case(case):
     covered = set(s1['positions']) | (set(s2['positions']) if s2 else set())
     span = lambda s: (s['positions'][0], s['positions'][-1] + 1)
     minq = case.get('minq')
+    dove = tuple(case.get('dove') or (0, 0))
     oriented = case['shape'] not in G.UNORIENTED_SHAPES
     observed = O.molecule_consensus([(_observations(a), _observations(b), span(a), span(b) if b else None)
-                                     for a, b in frag_specs], case['strand'], case['unsafe'], minq, oriented)
-    if not (case.get('r2sub') or case.get('extra') or minq is not None):
+                                     for a, b in frag_specs], case['strand'], case['unsafe'], minq, oriented, dove)
+    if not (case.get('r2sub') or case.get('extra') or minq is not None or case.get('dove')):
         # harness self test: without disagreement / filtering the consensus is what the molecule shows
         for p, base in observed.items():
             if base != molseq[p - case['start']]:
@@ -313,7 +319,7 @@ def run_case(case):
         if (s2 is None or case['unsafe'] or not oriented) and set(observed) != plain:
             raise HarnessError(f'oracle consensus incomplete {case}')
     expect = O.expectations(refseq, case['strand'], case['taps_strand'], case['unsafe'], span(s1),
-                            span(s2) if s2 else None, covered, observed, oriented)
+                            span(s2) if s2 else None, covered, observed, oriented, dove)
 
     viols = []
     info = {'letters': '', 'ncalls': 0}
@@ -326,6 +332,9 @@ def run_case(case):
             kw['features'] = _STATE['features']
         if minq is not None:
             kw['methylation_consensus_kwargs'] = {'min_phred_score': minq}
+        if case.get('dove'):
+            kw.setdefault('methylation_consensus_kwargs', {}).update(
+                {'dove_R1_distance': dove[0], 'dove_R2_distance': dove[1]})
         if case.get('build') == 'empty':
             # the documented other way to build a molecule: created without fragments, every fragment added later
             mol = mcls(None, **kw)
